@@ -1103,12 +1103,16 @@ class SSHProcess(SSHStreamSession, Generic[AnyStr]):
     def feed_eof(self, datatype: DataType) -> None:
         """Feed EOF to the channel"""
 
-        if self._send_eof[datatype]:
-            assert self._chan is not None
-            self._chan.write_eof()
+        send_eof = self._send_eof[datatype]
 
         self._readers[datatype].close()
         self.clear_reader(datatype)
+
+        # EOF applies to the channel as a whole, so only send it
+        # after the last reader which requested it has finished
+        if send_eof and not any(self._send_eof.values()):
+            assert self._chan is not None
+            self._chan.write_eof()
 
     def feed_close(self, datatype: DataType) -> None:
         """Feed pipe close to the channel"""
